@@ -6,7 +6,7 @@ INV = ["SemVerif.inv_errKinds", "SemVerif.inv_instrShapes"]
 
 COMMON = dict(claim="Correspondence (translation validation) between the real analyzer and the executable Lean model on generated programs, restricted to this property's projection, plus the Lean-defined property predicate evaluated on the implementation's own result for every case (the failing-input search). The theorem for this property is not finished yet, so the level claimed is what the run gives, not proof.", note='Trusted: the hand-written Lean model is tied to /repo only by differential testing on generated programs (generator quality bounds it) plus the regenerated tables; Rust harness, wire parser, Lean driver, tools/extract.py; the harness extension stands for all extensions.', technique="Lean 4 executable model + differential correspondence + Lean-defined predicate on the implementation result")
 
-NOT_CLAIMED = {"C20": "codec model (Spec/Codec.lean) and its Rust-side round trip are the last stage of DESIGN.md §6 and are not built yet; not claimed until they are"}
+NOT_CLAIMED = {}
 
 PROPS = {
     "C01": dict(level="translation_validation", modules=["SemVerif.Props.C01"],
@@ -55,6 +55,11 @@ PROPS = {
                 theorems=[], profiles=[("swap", 250, 15000)]),
     "C18": dict(level="translation_validation", modules=["SemVerif.Props.C18"],
                 theorems=[], profiles=[("wf", 400, 30000), ("wild", 400, 30000), ("fault1", 200, 10000)]),
+    "C20": dict(level="translation_validation", modules=["SemVerif.Props.C20"],
+                theorems=["SemVerif.C20_shapes"], profiles=[("codecnf", 400, 20000), ("codec", 400, 30000)],
+                claim="(a) Native round trips on the real types with serde_json for every generated program: AST serialise / deserialise / equality / identical re-serialised text / identical analysis of the deserialised AST; every produced stack (global, every block) and the error list serialise / deserialise / equality / identical text. (b) Correspondence of the Lean data-model encoder `encProgram` (Spec/Codec.lean, follows the serde attributes) with serde_json's value of the same AST on programs without float literals. (c) The serde attribute inventory regenerated from the sources equals the one the codec model was written against (inv_serdeShapes). The round-trip theorem dec(enc x) = x of the Lean codec is not written yet, so this is not claimed as proof.",
+                technique="native serde_json round trips + Lean data-model encoder compared with serde_json + regenerated serde-attribute inventory",
+                nontrivial_instrs=1),
     "C19": dict(level="translation_validation", modules=["SemVerif.Props.C19"],
                 theorems=[], profiles=[("wf", 500, 30000), ("chains", 400, 9330), ("wild", 300, 20000)]),
 }
